@@ -80,7 +80,7 @@ pub fn gen_ratio(rng: &mut Rng, sw: &Swarm) -> Op {
         }
         6 => Op::new(&nm("fromparts")).a(a).b(b).dst(d).form(rng.below(2)),
         7..=16 => Op::new(&nm(rng.pick(&["add", "sub", "mul", "div", "rem", "add", "mul"]))).a(a).b(b).dst(d).form(form(rng)),
-        17 | 18 => Op::new(&nm(rng.pick(&["addi", "subi", "muli", "divi"]))).a(a).b(b).dst(d).form(rng.below(14)),
+        17 | 18 => Op::new(&nm(rng.pick(&["addi", "subi", "muli", "divi", "addu", "subu", "mulu", "divu"]))).a(a).b(b).dst(d).form(rng.below(10)),
         19 => Op::new(&nm("pow")).a(a).dst(d).n(rng.below(9) as i64),
         20 => Op::new(&nm(rng.pick(&["sqr", "cubic", "inv", "neg", "abs", "signum", "fract"]))).a(a).dst(d).form(form(rng)),
         21 => Op::new(&nm("mulsign")).a(a).dst(d).n(rng.below(2) as i64).form(form(rng)),
